@@ -226,8 +226,22 @@ func clauseEq(a, b ast.Clause) string {
 	if (a.Transform == nil) != (b.Transform == nil) {
 		return "transform lost or invented"
 	}
-	if a.Transform != nil && a.Transform.String() != b.Transform.String() {
-		return "transform differs: " + a.Transform.String() + " vs " + b.Transform.String()
+	// transforms are compared structurally along the whole chain (t |> t2 |> ...), not by printed form
+	ta, tb := a.Transform, b.Transform
+	for depth := 0; ta != nil || tb != nil; depth++ {
+		if (ta == nil) != (tb == nil) {
+			return fmt.Sprintf("transform chain differs in length (stage %d lost or invented)", depth)
+		}
+		if len(ta.Statements) != len(tb.Statements) {
+			return fmt.Sprintf("transform stage %d: %d vs %d statements", depth, len(ta.Statements), len(tb.Statements))
+		}
+		for i := range ta.Statements {
+			sa, sb := ta.Statements[i], tb.Statements[i]
+			if (sa.Var == nil) != (sb.Var == nil) || sa.Var != nil && *sa.Var != *sb.Var || !sa.Fn.Equals(sb.Fn) {
+				return fmt.Sprintf("transform stage %d statement %d differs", depth, i)
+			}
+		}
+		ta, tb = ta.Next, tb.Next
 	}
 	return ""
 }
@@ -300,6 +314,15 @@ func c09Clauses(r *rt.Run) {
 		}
 	}
 	rec(nil, make([]bool, len(c04Lits)))
+	// clauses that end in a name constant, and chained transforms
+	for _, body := range []string{"q(X), X = /a", "X = /a, q(X)", "q(X), X != /a/b", "q(X), /a = X", "q(X), X = /a.b", "q(X), !s(/a)", "q(X), X = \"s\"", "q(X), X = 1.5"} {
+		for _, h := range c04Heads {
+			for _, t := range append(append([]string{}, c04Transforms...), " |> let Y = fn:plus(X, 1) |> let Z = fn:plus(Y, 1)", " |> do fn:group_by(X), let Y = fn:count() |> let Z = fn:plus(Y, 1)", " |> let Y = /a", " |> do fn:group_by(), let Y = fn:count() |> let Z = /a") {
+				c09ClauseCase(r, h+" :- "+body+t+".", "plain-extra")
+				c09ClauseCase(r, h+" :- "+body+t+" .", "plain-extra")
+			}
+		}
+	}
 	// temporal clauses
 	heads := []string{"h(X)", "h(X)@[2024-01-01]", "h(X)@[2024-01-01, 2024-01-05]", "h(X)@[S, E]", "h(X)@[_, 2024-01-05]", "h(X)@[2024-01-01, _]", "h(X)@[now]", "h(X)@[2024-01-01T10:30:00, now]"}
 	bounds := []string{"0s", "1s", "90m", "7d", "24h", "500ms", "now", "2024-01-01", "X1", "_"}
@@ -321,6 +344,20 @@ func c09Clauses(r *rt.Run) {
 				}
 			}
 		}
+	}
+	// an operator and an annotation on the same literal; sub-second timestamps
+	for _, op := range ops {
+		for _, an := range annots[1:] {
+			for _, w := range []string{"0s, 7d", "now, 1s", "_, 2024-01-01"} {
+				c09ClauseCase(r, fmt.Sprintf("h(X) :- %s[%s] a(X)%s.", op, w, an), "temporal-operator-with-annotation")
+				c09ClauseCase(r, fmt.Sprintf("h(X)@[S, E] :- q(X), %s[%s] a(X)%s, !b(X).", op, w, an), "temporal-operator-with-annotation")
+			}
+		}
+	}
+	for _, ts := range []string{"2024-01-01T10:30:00.5", "2024-01-01T10:30:00.000000001Z", "2024-01-01T10:30:00.123Z", "1970-01-01T00:00:00.999999999"} {
+		c09ClauseCase(r, "a(1)@["+ts+"].", "temporal-subsecond")
+		c09ClauseCase(r, "h(X)@["+ts+", _] :- a(X)@[_, "+ts+"].", "temporal-subsecond")
+		c09ClauseCase(r, "h(X) :- <-[_, "+ts+"] a(X).", "temporal-subsecond")
 	}
 	// facts with annotations
 	for _, an := range []string{"@[2024-01-01]", "@[2024-01-01, 2024-02-01]", "@[_, 2024-02-01]", "@[2024-01-01T00:00:01, _]"} {
